@@ -17,20 +17,21 @@ import (
 // ---- C10: every text through the five compile entry points, from a known state ----
 
 type cCase struct {
-	ID   int    `json:"id"`
-	Base string `json:"base"` // the rule set installed before the text is submitted
-	Mid  string `json:"mid"`  // optional: an incremental text applied after Base and before the text (so Base may equal the text)
-	Text string `json:"text"`
+	ID   int      `json:"id"`
+	Base string   `json:"base"` // the rule set installed before the text is submitted
+	Mid  string   `json:"mid"`  // optional: an incremental text applied after Base and before the text (so Base may equal the text)
+	Text string   `json:"text"`
+	Rm   []string `json:"rm,omitempty"` // optional: names removed after Base / Mid and before the text is submitted
 }
 
 type cEntryObs struct {
-	Entry   string   `json:"entry"`
-	Panic   string   `json:"panic,omitempty"`
-	Err     bool     `json:"err"`
-	ErrMsg  string   `json:"errmsg,omitempty"`
-	Before  []string `json:"before"`
-	After   []string `json:"after"`
-	IndexOK bool     `json:"index_ok"`
+	Entry   string            `json:"entry"`
+	Panic   string            `json:"panic,omitempty"`
+	Err     bool              `json:"err"`
+	ErrMsg  string            `json:"errmsg,omitempty"`
+	Before  []string          `json:"before"`
+	After   []string          `json:"after"`
+	IndexOK bool              `json:"index_ok"`
 	Trees   map[string]string `json:"trees,omitempty"` // rule name -> digest of its compiled tree (node kinds, operators, operands, source positions)
 }
 
@@ -141,6 +142,12 @@ func runCompileCase(c *cCase) cObs {
 				continue
 			}
 		}
+		if len(c.Rm) > 0 {
+			if e, p := guard(func() error { return rb.RemoveRules(c.Rm) }); e != nil || p != "" {
+				add(cEntryObs{Entry: entry, Panic: "removal failed: " + short(e) + p})
+				continue
+			}
+		}
 		o := cEntryObs{Entry: entry}
 		o.Before, _ = builderRules(rb)
 		e, p := guard(func() error {
@@ -187,6 +194,12 @@ func runCompileCase(c *cCase) cObs {
 		if c.Mid != "" {
 			if e := gp.UpdatePooledRulesIncremental(c.Mid); e != nil {
 				add(cEntryObs{Entry: entry, Panic: "mid does not compile: " + e.Error()})
+				continue
+			}
+		}
+		if len(c.Rm) > 0 {
+			if e, p := guard(func() error { return gp.RemoveRules(c.Rm) }); e != nil || p != "" {
+				add(cEntryObs{Entry: entry, Panic: "removal failed: " + short(e) + p})
 				continue
 			}
 		}
